@@ -45,6 +45,22 @@ func main() {
 		return
 	}
 
+	if os.Getenv("OWCHECK_EFFECTS") != "" {
+		p, _ := Load(*repo, loadConfig{})
+		e := ComputeEffects(p)
+		for _, fn := range p.SrcFuncs() {
+			if !strings.Contains(FuncKey(fn), os.Getenv("OWCHECK_EFFECTS")) {
+				continue
+			}
+			s := e.sums[fn]
+			for k, w := range s.mut {
+				if w != nil {
+					fmt.Printf("%s slot %d: %s at %s\n", FuncKey(fn), k, w.what, p.Pos(w.site.Pos()))
+				}
+			}
+		}
+		return
+	}
 	if *list {
 		var ids []string
 		for id := range props {
